@@ -39,6 +39,8 @@ def pre (site : Gen.BackendSites.SiteId) (x : Atoms) : Bool :=
   | .tweak_add__libsecp256k1_pubkey_tweak_add => served x && point1 x && x.s1_reduced
   | .tweak_chain_init__Libsecp256k1PubkeyTweakChain => served x && point1 x
   | .tweak_chain_point__tweak_add => x.chain_held && x.s1_reduced
+  -- `_jac_double_mult` asks the predicate and hands over to `double_mult_var`, a site with its own guard: served is all it owes
+  | .jac_double_mult__double_mult_var => served x
   | .multi_mult__libsecp256k1_multi_mult =>
       served x && x.all_scalars_reduced && x.all_on_curve && x.all_terms_nonzero_finite && x.n_terms_gt_1
   -- sec_point.py
